@@ -234,7 +234,7 @@ NO_SHRINK = True
 
 
 def shards(tier, seed):
-    n = 1500 if tier == "thorough" else 250
+    n = 8000 if tier == "thorough" else 800
     return [{"seed": seed, "lo": i * n, "hi": (i + 1) * n} for i in range(16)]
 
 
